@@ -139,6 +139,9 @@ impl Check for C20Binary {
             args.push(format!("--on-error={}", POLICIES[case.policy as usize]));
         }
         args.push(format!("--row-seperator={}", case.sep));
+        if args.iter().any(|a| a == "--unique") && !crate::univ::coherent_for_unique(&build_inputs(&case.values, &[]).0) {
+            return CaseResult::Discard("--unique over values where jawk's = and hash disagree (outside C10's domain)".into());
+        }
         let reference = run(&args, &input);
         let child = match spawn_jawk(&bin, &args, &input, case.sink) {
             Ok(c) => c,
